@@ -116,6 +116,16 @@ def impl_functions():
                  '_look_for_last_index_of_unlabelled_number_token', '_look_for_last_index_of_literal_token'):
         fs['nt' + meth] = (lambda m: lambda strs, flag, opt, num=0: str(_bounded(getattr(y, m), strs[0], num)))(meth)
     fs['nt_look_for_tokens'] = lambda strs, flag, opt, num=0: "".join(t + "\x01" for t in _bounded(y._look_for_tokens, strs[0]))
+    tt = importlib.import_module("shexer.io.graph.yielder.big_ttl_triples_yielder")
+    ty_ = tt.BigTtlTriplesYielder(raw_graph="")
+    fs['ttl_remove_comments_if_needed'] = lambda strs, flag, opt, num=0: _bounded(ty_._remove_comments_if_needed, strs[0])
+    for meth in ('_find_next_blank', '_count_prior_backslashes', '_find_next_unescaped_quotes', '_find_next_quoted_literal_ending'):
+        fs['ttl' + meth] = (lambda m: lambda strs, flag, opt, num=0: str(_bounded(getattr(ty_, m), strs[0], num)))(meth)
+
+    def expand(strs, flag, opt, num=0):
+        ty_._prefixes = dict(zip(strs[1::2], strs[2::2]))
+        return ty_._expand_prefixed_datatype_if_needed(strs[0])
+    fs['ttl_expand_prefixed_datatype_if_needed'] = expand
     return fs
 
 
@@ -142,6 +152,39 @@ NT_FUNCS = ['nt_look_for_index_of_closing_quotes', 'nt_look_for_last_index_befor
             'nt_look_for_last_index_of_unlabelled_number_token', 'nt_look_for_last_index_of_literal_token', 'nt_look_for_tokens']
 NT_PIECES = ['<http://e/a>', '<http://e/b#x>', '<', '>', '"', '"', '\\"', '\\\\', '\\', 'abc', ' ', ' ', '\t', '.', ' .', '@en', '@en-GB', '^^', '^^<http://e/dt>', '^^<', '^^xsd:integer',
              '_:b1', '_:b.x', '_', '12', '3.5', '#', '# c', 'é', '\u2028', '\x85', '\x0c', '\xa0', "'", ':', '-']
+
+
+TTL_FUNCS = ['ttl_remove_comments_if_needed', 'ttl_find_next_blank', 'ttl_count_prior_backslashes', 'ttl_find_next_unescaped_quotes',
+             'ttl_find_next_quoted_literal_ending', 'ttl_expand_prefixed_datatype_if_needed']
+TTL_PIECES = ['"', '"', '\\"', '\\\\', '\\', ' #', ' # c', '#', ' ', ' ', 'ex:a', 'ex:p', '<http://e/x>', '^^', '^^xsd:int', '^^<http://e/dt>', '^^ex:dt', '@en', '@en-GB',
+              ' .', ' ;', ' ,', '.', 'a', 'é', '12', '_:b', ':', "'", '\u2028']
+
+
+def gen_ttl(rng):
+    name = rng.choice(TTL_FUNCS)
+    if rng.random() < (0.85 if name in ('ttl_find_next_quoted_literal_ending', 'ttl_find_next_unescaped_quotes') else 0.5):
+        lit = '"' + rstr(rng, ['a', ' ', '\\"', '\\\\', '\\', '@', '^^', ' #', '#', ' .', 'é'], 0, 5) + '"' + rng.choice(['', '', '@en', '^^<http://e/dt>', '^^xsd:int', '^^ex:dt', '^^e:x:y', 'x'])
+        line = rng.choice(['ex:s ex:p ', 'ex:p ', '', '<http://e/s> a ']) + lit + rng.choice([' .', ' ;', ' , ' + lit + ' .', '', ' . # c "q', ' # "x" # y'])
+    else:
+        line = rstr(rng, TTL_PIECES, 0, 7)
+    if name == 'ttl_expand_prefixed_datatype_if_needed':
+        pres = ['ex', 'e', 'xsd', '', 'http']
+        keys = rng.sample(pres, rng.randint(0, 4))
+        keys += [k for k in ('ex', 'xsd', 'e') if k not in keys and rng.random() < 0.5]
+        tok = '"' + rstr(rng, ['a', '\\"', '^^', '"', ' '], 0, 3) + '"' + rng.choice(['', '@en', '^^<http://e/dt>', '^^xsd:int', '^^ex:dt', '^^e:x:y', '^^zz:q', '^^', '^^http://e/x', '^'])
+        strs = [tok if rng.random() < 0.8 else line]
+        for k in keys:
+            strs += [k, rng.choice(['http://example.org/', 'http://e.org/ns#', ''])]
+        return "F %s 0 N %s" % (name, " ".join(enc(x) for x in strs)), (name, strs, False, None, 0)
+    if name == 'ttl_remove_comments_if_needed':
+        return "G %s 0 %s" % (name, enc(line)), (name, [line], False, None, 0)
+    want = {'ttl_find_next_blank': None, 'ttl_count_prior_backslashes': '"', 'ttl_find_next_unescaped_quotes': None, 'ttl_find_next_quoted_literal_ending': '"'}[name]
+    good = [i for i, c in enumerate(line) if want is None or c in want]
+    num = rng.choice(good) if good and rng.random() < 0.8 else rng.randint(-2, len(line) + 1)
+    if name == 'ttl_find_next_unescaped_quotes' and good and rng.random() < 0.6:
+        qs = [i + 1 for i, c in enumerate(line) if c == '"']
+        num = rng.choice(qs) if qs else num
+    return "G %s %d %s" % (name, num, enc(line)), (name, [line], False, None, num)
 
 
 def gen_nt(rng):
@@ -245,6 +288,8 @@ def run(rng, n, names=None, prebuilt=None):
         num = None
         if k % 4 == 3 and all(x in fs for x in NT_FUNCS) and (names_given is None or any(x in names_given for x in NT_FUNCS)):
             ln, (name, strs, flag, opt, num) = gen_nt(rng)
+        elif k % 4 == 1 and all(x in fs for x in TTL_FUNCS) and (names_given is None or any(x in names_given for x in TTL_FUNCS)):
+            ln, (name, strs, flag, opt, num) = gen_ttl(rng)
         else:
             ln, (name, strs, flag, opt) = gen_function(rng, [x for x in names if x in ARITY])
         try:
@@ -252,7 +297,7 @@ def run(rng, n, names=None, prebuilt=None):
             e = ('str', r)
         except _Diverges:
             e = ('err', 'OutOfFuel')
-        except (ValueError, RuntimeError, IndexError, KeyError) as ex:
+        except (ValueError, RuntimeError, IndexError, KeyError, TypeError) as ex:
             e = ('err', type(ex).__name__)
         except Exception as ex:   # anything else is outside the translated fragment's exception vocabulary
             e = ('err', "other:" + type(ex).__name__)
